@@ -67,6 +67,17 @@ def step (s : St) (fs : List String) : St × String :=
         if kind ≠ "root" ∧ kind ≠ "p" ∧ kind ≠ "none" then (s, "bad-op") else
         ({ s with toks := s.toks ++ [{ ord, ns, isRoot := kind = "root", pats }] }, "ok")
       | _, _, _ => (s, "bad-op")
+  | ["nsrotate", p] =>
+      -- root-key rotation of a separately sealed namespace: it succeeds and writes nothing outside the namespace's own
+      -- storage prefix (`Confine.rotation_writes_confined`)
+      match parseHex? p with
+      | some p =>
+        if (nsOrd s p).isNone then (s, "bad-op") else
+        -- the keys are shown relative to the namespace prefix; none lies outside it
+        let rel := (rotationWrites "").filter (·.1 == "put")
+        let shown := (rel.map fun w => w.1 ++ ":" ++ w.2).toArray.qsort (· < ·) |>.toList
+        (s, "ok|-|" ++ ",".intercalate shown)
+      | none => (s, "bad-op")
   | ["aliascase"] => (s, "ok")
   | ["aliastoken", nsB, nsA] =>
       -- auth/token/create in namespace B naming the policy "../<uuid of namespace A>/p": policy names are looked up under
